@@ -218,6 +218,7 @@ def const_table(files):
 
 class Sym:
     CONSTS = {}
+    ENUMS = {}  # text of a field-less enum variant as it appears in MIR (e.g. "NextAction::Nothing") -> (value, width)
 
     def __init__(self, fn, prefix="", models=None, max_visits=1):
         self.fn = fn
@@ -528,6 +529,25 @@ class Sym:
             p = parse_place(m.group(2))
             rp = self.resolve(path, p)
             return self.load(path, rp, self.place_type(p)), rp
+        if s in self.ENUMS:
+            val, w = self.ENUMS[s]
+            return bv(bvconst(val, w), w), None
+        # array aggregate [a, b]
+        if s.startswith("[") and s.endswith("]") and ";" not in s:
+            try:
+                return V("tuple", t="array", items=[self.operand(path, o)[0] for o in mir.split_top(s[1:-1])]), None
+            except Exception:
+                pass
+        # Option / Result constructors with their generic arguments spelled out
+        mo = re.match(r"(?:std::option::)?Option::<.*>::(Some)\((.*)\)$|(?:std::result::)?Result::<.*>::(Ok|Err)\((.*)\)$", s)
+        if mo:
+            tag = mo.group(1) or mo.group(3)
+            try:
+                return V("tuple", t="ctor:" + tag, items=[self.operand(path, o)[0] for o in mir.split_top(mo.group(2) if mo.group(1) else mo.group(4))]), None
+            except Exception:
+                pass
+        if re.match(r"(?:std::option::)?Option::<.*>::None$", s):
+            return V("tuple", t="ctor:None", items=[]), None
         # enum-variant constructor printed by its bare name, e.g. `Start(move _39)`: payload kept, tag in .t
         dt_ = (dest_ty or "").strip()
         if m and re.match(r"[A-Z][a-z]\w*$", m.group(1)) and dt_ and dt_ not in INT_W and dt_ not in ("bool", "f32", "f64", "char") and not dt_.startswith(("*", "&")):
